@@ -976,7 +976,7 @@ impl World {
         if !self.chan.as_ref().map(|c| c.ready).unwrap_or(false) {
             return "nochan".into();
         }
-        if a.len() != 4 || a[0] > 5 {
+        if a.len() != 4 || a[0] > 6 {
             return "bad-op".into();
         }
         let cw = match &mut self.chan {
@@ -1013,8 +1013,9 @@ impl World {
                 }],
                 output: vec![TxOut { value: Amount::from_sat(5000), script_pubkey: ScriptBuf::new_p2pkh(&lightning_signer::bitcoin::PubkeyHash::from_byte_array([4u8; 20])) }],
             }),
-            3 | 4 | 5 => {
-                // (5 = the counterparty's PREVIOUS, not yet revoked commitment: see finding F-C05-M1)
+            3 | 4 | 5 | 6 => {
+                // (5 = the counterparty's PREVIOUS, not yet revoked commitment, cf. F-C05-M1; 6 = the holder's
+                // validated, still pending NEXT commitment)
                 // a real UNILATERAL close: the holder's current commitment (3) or the counterparty's current
                 // commitment (4), rebuilt from what the signer itself holds as the current content; before any
                 // commitment exists a plain spend stands in
@@ -1034,6 +1035,8 @@ impl World {
                     let e = &c.enforcement_state;
                     Ok(if kind == 3 {
                         e.current_holder_commit_info.clone().map(|i| (e.next_holder_commit_num - 1, i, None))
+                    } else if kind == 6 {
+                        e.next_holder_commit_info.clone().map(|(i, _)| (e.next_holder_commit_num, i, None))
                     } else if kind == 5 {
                         match (&e.previous_counterparty_commit_info, e.previous_counterparty_point) {
                             (Some(i), Some(p)) if e.next_counterparty_commit_num >= 2 => Some((e.next_counterparty_commit_num - 2, i.clone(), Some(p))),
@@ -1049,7 +1052,7 @@ impl World {
                 let built = match cur {
                     None => None,
                     Some((n, info, point)) => catch_unwind(AssertUnwindSafe(|| {
-                        if kind == 3 {
+                        if kind == 3 || kind == 6 {
                             let ctx = channel_commitment(&cw.node_ctx, &cw.chan_ctx, n, info.feerate_per_kw,
                                 info.to_broadcaster_value_sat, info.to_countersigner_value_sat,
                                 info.offered_htlcs.clone(), info.received_htlcs.clone());
@@ -1065,7 +1068,7 @@ impl World {
                     })).ok(),
                 };
                 if built.is_some() {
-                    self.out.tags.insert(format!("blk:unilateral:{}", if kind == 3 { "holder" } else { "counterparty" }));
+                    self.out.tags.insert(format!("blk:unilateral:{}", match kind { 3 => "holder-current", 6 => "holder-next", 4 => "counterparty-current", _ => "counterparty-previous" }));
                 }
                 txs.push(built.unwrap_or(plain));
             }
@@ -1713,7 +1716,7 @@ impl World {
 fn own_chain_of(kinds: &[u64]) -> (u64, u64, u64) {
     let n = kinds.len() as u64;
     let depth = |ks: &[u64]| kinds.iter().position(|b| ks.contains(b)).map(|i| n - i as u64).unwrap_or(0);
-    (3 + n, depth(&[1]), depth(&[2, 3, 4, 5]))
+    (3 + n, depth(&[1]), depth(&[2, 3, 4, 5, 6]))
 }
 
 /// content of a commitment up to the order of its HTLCs (what `CommitmentInfo2` equality sees)
